@@ -199,6 +199,7 @@ impl ChunkIndex {
             .iter()
             .filter_map(|(hash, cd)| {
                 let mut cd = cd.clone();
+                let target_offsets = cd.offsets.len();
                 if let Some(ChunkLocation { offsets, size }) = self.get(hash) {
                     // For each chunk present in both target and source we compare the offsets and remove
                     // any offset which is present in both from the target.
@@ -208,7 +209,7 @@ impl ChunkIndex {
                             .position(|offset| *offset == *remove_offset)
                             .map(|pos| cd.offsets.remove(pos));
                     });
-                    let offsets_in_place = offsets.len() - cd.offsets.len();
+                    let offsets_in_place = target_offsets - cd.offsets.len();
                     num_alread_in_place += offsets_in_place;
                     total_size += (*size * offsets_in_place) as u64;
                     if cd.offsets.is_empty() {
